@@ -32,7 +32,7 @@ def own_term_commit(cx):
     cx.check(ok, "shape", "commit_to_current_term() = (raft_log.term(committed) == Ok(self.term))", shape=show(rets[0][1]) if rets else None)
     n = 0
     for suffix in ("ReadOnly::add_request", "Raft::handle_ready_read_index"):
-        for c in cx.prog.call_sites_of(suffix):
+        for c in cx.prog.call_sites_of(cx.sfx(suffix)):
             if not _in_msg_arm(cx, c, {"MsgReadIndex"}, depth=0):
                 continue
             n += 1
@@ -51,7 +51,7 @@ def recorded_index(cx):
         cx.check(ok, key, "add_request(raft_log.committed, m, self.id) (found %s)" % [show(a) for a in args[1:]], c)
         # the heartbeat broadcast that follows carries m's context
         m = args[2]
-        bc = [b for sp, b in cx.prog.calls_out[c.fn.key] if b.kind == "call" and sp.endswith("bcast_heartbeat_with_ctx")]
+        bc = [b for sp, b in cx.prog.calls_out[c.fn.key] if b.kind == "call" and sp == cx.sfx("Raft::bcast_heartbeat_with_ctx")]
         okb = False
         for b in bc:
             a = call_args(cx, b)[1]
@@ -195,7 +195,7 @@ def routing(cx):
 def single_voter_fastpath(cx):
     # immediate answers in the MsgReadIndex arm (not preceded by a quorum-checked advance)
     n = 0
-    for c in cx.prog.call_sites_of("Raft::handle_ready_read_index"):
+    for c in cx.prog.call_sites_of(cx.sfx("Raft::handle_ready_read_index")):
         if not _in_msg_arm(cx, c, {"MsgReadIndex"}, depth=0):
             continue
         n += 1
